@@ -49,6 +49,7 @@ pub fn c05_get_or_create_two_requests() {
     std::mem::forget(ca);
     std::mem::forget(cb);
     std::mem::forget(v);
+    vcover!(true, "end of harness reached");
 }
 
 /// The pairs a child holds are what its collected sample exposes (`Value::metric` clones them),
@@ -74,6 +75,7 @@ pub fn c05_child_exposes_values_with_const_labels() {
     assert!(m.get_label().len() == 3 && m.get_label()[1].name() == "x", "C05 sample carries the child's label pairs");
     std::mem::forget(m);
     std::mem::forget(desc);
+    vcover!(true, "end of harness reached");
 }
 
 pub fn dispatch(name: &str) -> Option<fn()> {
